@@ -16,6 +16,17 @@ pub const INVALID_UTF8: &[&[u8]] = &[
     &[0xF4, 0x90, 0x80, 0x80], // > U+10FFFF
     &[0xFF],
     &[0xFE],
+    // encodings that lenient decoders accept although they are not UTF-8
+    &[0xED, 0xA0, 0xBD, 0xED, 0xB8, 0x80], // CESU-8: surrogate pair D83D DE00 in 3-byte form
+    &[0xED, 0xA0, 0x80, 0xED, 0xB0, 0x80], // CESU-8: D800 DC00
+    &[0xED, 0xAF, 0xBF, 0xED, 0xBF, 0xBF], // CESU-8: DBFF DFFF
+    &[0xED, 0xB0, 0x80],                   // lone low surrogate
+    &[0xC0, 0x80],                         // "modified UTF-8" NUL
+    &[0xF0, 0x80, 0x80, 0xAF],             // overlong 4
+    &[0xF8, 0x88, 0x80, 0x80, 0x80],       // 5-byte form
+    &[0xFC, 0x84, 0x80, 0x80, 0x80, 0x80], // 6-byte form
+    &[0xF5, 0x80, 0x80, 0x80],             // lead byte F5
+    &[0xEF, 0xBF],                         // truncated U+FFFE/FFFF region
 ];
 
 pub const OPS: &[&str] = &[
